@@ -3078,8 +3078,12 @@ func (h *ResponseHeader) parseHeaders(buf []byte) (int, error) {
 					h.connectionClose = true
 				} else {
 					// The value is a list of case-insensitive tokens,
-					// 'close' may be one of them.
-					h.connectionClose = hasHeaderValue(s.value, strClose)
+					// 'close' may be one of them. Several Connection
+					// lines form one list, so a later line cannot take
+					// back a 'close' of an earlier one.
+					if hasHeaderValue(s.value, strClose) {
+						h.connectionClose = true
+					}
 					h.h = appendArgBytes(h.h, s.key, s.value, argsHasValue)
 				}
 				continue
@@ -3270,8 +3274,12 @@ func (h *RequestHeader) parseHeaders(buf []byte, blockEnd int) (int, error) {
 					h.connectionClose = true
 				} else {
 					// The value is a list of case-insensitive tokens,
-					// 'close' may be one of them.
-					h.connectionClose = hasHeaderValue(s.value, strClose)
+					// 'close' may be one of them. Several Connection
+					// lines form one list, so a later line cannot take
+					// back a 'close' of an earlier one.
+					if hasHeaderValue(s.value, strClose) {
+						h.connectionClose = true
+					}
 					h.h = appendArgBytes(h.h, s.key, s.value, argsHasValue)
 				}
 				continue
